@@ -240,8 +240,11 @@ impl Model {
         match verdict {
             None => {
                 no_contact = true;
+                // if other users hold appointments on the same channel (same locator), one user's data kept the tower
+                // from answering for another: an isolation failure too (C06)
+                let shared = self.appts.keys().any(|k| k.1 == key.1 && k.0 != key.0);
                 out.push(viol(
-                    &["C01"],
+                    if shared { &["C01", "C06"] } else { &["C01"] },
                     "C01:penalty-not-submitted",
                     format!("appointment {key:?} (version {}) was triggered by its dispute but no sendrawtransaction/getrawtransaction for penalty {ptxid} appears before the tower finished handling the {}", a.ver, if in_connect { "block" } else { "request" }),
                 ));
@@ -576,7 +579,12 @@ impl Model {
                 MState::Responded { conf, last_send: _, reorged } => {
                     let p = v.penalty.as_ref().expect("responded appointments have a penalty");
                     let ptxid = p.compute_txid();
-                    just_p.insert(ptxid);
+                    // a responded appointment's penalty may be sent again while it is unconfirmed (periodic re-broadcast) or
+                    // after the block that confirmed it was disconnected — not when a block delivered earlier confirmed it
+                    // and that block is still on the chain
+                    if reorged || !matches!(conf, Some(hc) if hc < h) {
+                        just_p.insert(ptxid);
+                    }
                     if reorged {
                         just_d.insert(dtxid);
                     }
